@@ -52,7 +52,8 @@ PROGRAMS = [
     ["mux", [["naive", "last"], ["poly", 1]], 0],
     ["grid", ["naive", "last"], {"strategy": ["last", "mean"]}],
 ]
-DATA_FAULTS = ["unsorted", "empty", "dataframe", "ndarray", "list", "x_index", "x_shorter"]
+DATA_FAULTS = ["unsorted", "empty", "dataframe", "ndarray", "list", "x_index", "x_shorter",
+               "x_longer", "x_longer_front"]
 FH_FAULTS = ["dup", "dup_index", "dup_array", "dup_range", "empty", "frac", "frac_array", "str",
              "dict", "set", "series", "missing"]
 CONTEXTS = [(12, 0, "range"), (15, 5, "range"), (12, 3, "index")]
@@ -70,6 +71,15 @@ def _y(ctx):
 
 def _X(y):
     return pd.DataFrame({"x": 10000.0 + np.arange(len(y))}, index=y.index)
+
+
+def _X_longer(y, front=False):
+    """exogenous frame whose index is a strict superset of y's (extra time points)"""
+    lo, hi = int(y.index[0]), int(y.index[-1])
+    idx = np.arange(lo - (2 if front else 0), hi + (1 if front else 3))
+    idx = pd.RangeIndex(idx[0], idx[-1] + 1) if isinstance(y.index, pd.RangeIndex) else \
+        pd.Index(idx, dtype="int64")
+    return pd.DataFrame({"x": 10000.0 + np.arange(len(idx))}, index=idx)
 
 
 def _bad_y(y, fault):
@@ -119,6 +129,11 @@ def gen_cases(tier, seed):
                     yield dict(entry="splitter", splitter=sp, which="toolong", ctx=ci, fh=fhi)
                     # the shortest window that does not fit: n - max(fh) + 1
                     yield dict(entry="splitter", splitter=sp, which="toolong1", ctx=ci, fh=fhi)
+                if sp == "sliding":
+                    yield dict(entry="splitter", splitter=sp, which="initial_toolong", ctx=ci,
+                               fh=fhi)
+                    yield dict(entry="splitter", splitter=sp, which="initial_le_window", ctx=ci,
+                               fh=fhi)
                 for fault in ("dup", "dup_index", "dup_array", "frac", "frac_array", "str",
                               "dict", "set", "series", "empty"):
                     yield dict(entry="splitter", splitter=sp, which="fh:" + fault, ctx=ci, fh=fhi)
@@ -139,14 +154,14 @@ def gen_cases(tier, seed):
                         continue
                     yield dict(entry="composite", comp=comp, fault=fault, ctx=ci, fh=fhi)
             for which in ("y:unsorted", "y:empty", "y:dataframe", "y:ndarray", "cv:int", "cv:kfold",
-                          "strategy", "scoring", "x_index"):
+                          "strategy", "scoring", "x_index", "x_longer"):
                 yield dict(entry="evaluate", which=which, ctx=ci, fh=fhi)
             for which in ("y:unsorted", "y:dataframe", "y:ndarray", "cv:int", "grid:scalar",
                           "grid:emptylist", "grid:unknownparam"):
                 for search in ("grid", "rand"):
                     yield dict(entry="tune", which=which, search=search, ctx=ci, fh=fhi)
             for which in ("fh+test_size", "fh+train_size", "fh:insample", "fh:dup", "fh:dup_index",
-                          "fh:frac", "fh:str", "x_index"):
+                          "fh:frac", "fh:str", "x_index", "x_longer"):
                 yield dict(entry="tts", which=which, ctx=ci, fh=fhi)
 
 
@@ -231,15 +246,17 @@ def _forecaster_cell(res, case, y, fh, nt):
     fh_pred = None if req else fh
     if case["entry"] == "fit":
         key = "%s:fit:%s" % (tag, fault)
-        if fault in ("x_index", "x_shorter"):
+        if fault.startswith("x_"):
             if not takes_X:
                 return
             Xg = _X(y)
             Xb = Xg.copy()
             if fault == "x_index":
                 Xb.index = Xb.index + 1
-            else:
+            elif fault == "x_shorter":
                 Xb = Xb.iloc[:-2]
+            else:
+                Xb = _X_longer(y, front=fault.endswith("front"))
             good = call(run, y.copy(), Xg, fh_fit, fh_pred, None, False)
             bad = call(run, y.copy(), Xb, fh_fit, fh_pred, None, False)
         else:
@@ -307,6 +324,17 @@ def _splitter_cell(res, case, y, fh, nt):
         return [(a.tolist(), b.tolist()) for a, b in _mk_splitter(kind, fhv, W, s, n).split(yv)]
 
     good = call(run, fh, 3, 1, y)
+    if which in ("initial_toolong", "initial_le_window"):
+        from sktime.forecasting.model_selection import SlidingWindowSplitter
+
+        def run_i(I):
+            cv = SlidingWindowSplitter(fh=fh, window_length=3, step_length=1, initial_window=I)
+            return [(a.tolist(), b.tolist()) for a, b in cv.split(y)]
+
+        good = call(run_i, n - max(fh))        # the longest initial window that fits
+        bad = call(run_i, n - max(fh) + 1 if which == "initial_toolong" else 3)
+        _judge(res, key, bad, good, None, nt)
+        return
     if which in ("window", "step"):
         b = BAD_INT[case["bad"]]
         key += ":%r" % (b,)
@@ -485,7 +513,7 @@ def _evaluate_cell(res, case, y, fh, nt):
         kw["X"] = _X(y)
         Xb = _X(y)
         Xb.index = Xb.index + 1
-        bkw["X"] = Xb
+        bkw["X"] = Xb if which == "x_index" else _X_longer(y)
     good = call(lambda: evaluate(**kw))
     bad = call(lambda: evaluate(**bkw))
     f = bkw["forecaster"]
@@ -546,6 +574,8 @@ def _tts_cell(res, case, y, fh, nt):
     else:
         Xb = _X(y)
         Xb.index = Xb.index + 1
+        if which == "x_longer":
+            Xb = _X_longer(y)
         good = call(lambda: tts(y.copy(), _X(y), fh=fh))
         bad = call(lambda: tts(y.copy(), Xb, fh=fh))
     _judge(res, key, bad, good, None, nt)
